@@ -109,6 +109,17 @@ fn materialize(t: &Path, tree: &Value, relative_links: bool, lname: &str) {
     for (rel, node) in own {
         mk(rel, node, &mut modes);
     }
+    // what else a real layer directory may hold: a FIFO, a socket, a file whose name is not UTF-8
+    // (every other tree; all of it belongs to the layer and goes with it)
+    let layer_root = t.join(format!("L/{lname}"));
+    if tree.to_string().len() % 2 == 0 && fs::symlink_metadata(&layer_root).is_ok_and(|m| m.file_type().is_dir()) {
+        use std::os::unix::ffi::OsStringExt;
+        let fifo = std::ffi::CString::new(layer_root.join("a fifo").as_os_str().as_encoded_bytes()).unwrap();
+        unsafe { libc::mkfifo(fifo.as_ptr(), 0o600) };
+        let _ = std::os::unix::net::UnixListener::bind(layer_root.join("S.agent"));
+        let _ = fs::write(layer_root.join(std::ffi::OsString::from_vec(b"caf\xe9.txt".to_vec())), "latin-1 name");
+        let _ = fs::write(layer_root.join(std::ffi::OsString::from_vec(b"zz\xff\xfe last".to_vec())), "sorts last");
+    }
     // a content metadata file that exists must be readable as such
     if t.join(format!("L/{lname}.toml")).exists() {
         fs::write(t.join(format!("L/{lname}.toml")), "[types]\ncache = true\n\n[metadata]\nkept = \"no\"\n").unwrap();
